@@ -43,6 +43,7 @@ type DeclResult struct {
 	Obs      []string `json:"obs,omitempty"`    // observed outcome per value
 	Extra    []string `json:"extra,omitempty"`  // per value: extra observations (allocs, mutation, ctx …)
 	NilRecv  string   `json:"nilrecv,omitempty"`
+	AltAlloc string   `json:"altalloc,omitempty"` // allocations of one pass over ALL valid values of the struct (Validate + ValidateContext each)
 	Source   string   `json:"source,omitempty"`
 }
 
@@ -694,6 +695,7 @@ func (r *runner) writeDriver(sc *Scenario, results []*DeclResult, mode string) {
 			}
 		}
 		sb.WriteString("\tsents := []error{" + strings.Join(append([]string{"ErrNil" + T}, sentNames...), ", ") + "}\n\t_ = sents\n")
+		sb.WriteString("\tvar valid []*" + T + "\n\t_ = valid\n")
 		for i, v := range vals {
 			var as []string
 			v.assignments("v", &as)
@@ -727,7 +729,7 @@ func (r *runner) writeDriver(sc *Scenario, results []*DeclResult, mode string) {
 				sb.WriteString("\t\textra = append(extra, fmt.Sprintf(\"mut=%v\", before != after), fmt.Sprintf(\"rep=%v\", out == out2), fmt.Sprintf(\"sentunset=%v\", rt.SentinelValuesUnset(sents)))\n")
 			}
 			if has("alloc") {
-				sb.WriteString("\t\tif out == \"nil\" {\n")
+				sb.WriteString("\t\tif out == \"nil\" {\n\t\t\tvalid = append(valid, v)\n")
 				sb.WriteString("\t\t\ta1 := testing.AllocsPerRun(20, func() { _ = v.Validate() })\n")
 				sb.WriteString("\t\t\ta2 := testing.AllocsPerRun(20, func() { _ = Validate" + T + "(v) })\n")
 				sb.WriteString("\t\t\ta3 := testing.AllocsPerRun(20, func() { _ = v.ValidateContext(context.Background()) })\n")
@@ -735,6 +737,12 @@ func (r *runner) writeDriver(sc *Scenario, results []*DeclResult, mode string) {
 			}
 			fmt.Fprintf(&sb, "\t\tfmt.Fprintf(w, \"%s\\t%s\\t%d\\t%%s\\t%%s\\n\", out, strings.Join(extra, \";\"))\n", sc.ID, T, i)
 			sb.WriteString("\t}\n")
+		}
+		if has("alloc") {
+			// every valid value of the struct in turn inside ONE measured function: a helper that remembers its last argument
+			// (and allocates whenever the argument changes) is invisible when the same value is validated over and over
+			sb.WriteString("\tif len(valid) >= 2 {\n\t\ta := testing.AllocsPerRun(10, func() {\n\t\t\tfor _, v := range valid {\n\t\t\t\t_ = v.Validate()\n\t\t\t\t_ = v.ValidateContext(context.Background())\n\t\t\t}\n\t\t})\n")
+			fmt.Fprintf(&sb, "\t\tfmt.Fprintf(w, \"%s\\t%s\\taltalloc\\t%%v\\tn=%%d\\n\", a, len(valid))\n\t}\n", sc.ID, T)
 		}
 		if has("is") {
 			// nil receiver
@@ -958,13 +966,61 @@ func (r *runner) runAll(scs []*Scenario) []*DeclResult {
 			}
 		}
 	}
+	// mode "together": ONE generator invocation over all packages that build (explicit directories), then the files must be
+	// byte-identical to the per-package generation and everything must still build (generator state shared across packages)
+	if strings.Contains(","+r.mode+",", ",together,") && len(ids) >= 2 {
+		before := map[string]map[string]string{}
+		var dirs []string
+		for _, id := range ids {
+			before[id] = validators(filepath.Join(r.mod(), "p"+id))
+			dirs = append(dirs, "./p"+id)
+		}
+		fail := func(id, msg string) {
+			for _, dr := range all[id] {
+				if dr.Builds {
+					dr.Builds = false
+					dr.BuildErr = msg
+				}
+			}
+		}
+		for round := 0; round < 2; round++ {
+			o, code := r.cmd(r.mod(), r.govalid, dirs...)
+			for _, id := range ids {
+				after := validators(filepath.Join(r.mod(), "p"+id))
+				for n, c := range before[id] {
+					if after[n] != c {
+						fail(id, fmt.Sprintf("one generator invocation over all %d packages (round %d, exit %d): %s differs from the file generated for the package alone (or is missing); generator output: %s", len(ids), round+1, code, n, tail(o, 600)))
+					}
+				}
+			}
+			if code != 0 {
+				fail(ids[0], fmt.Sprintf("one generator invocation over all %d packages exits %d: %s", len(ids), code, tail(o, 1200)))
+			}
+			if bo, bc := r.cmd(r.mod(), "go", append([]string{"build"}, dirs...)...); bc != 0 {
+				for _, id := range ids {
+					if strings.Contains(bo, "scen/p"+id+"\n") || strings.Contains(bo, "p"+id+"/") {
+						fail(id, fmt.Sprintf("after one generator invocation over all %d packages the package no longer builds: %s", len(ids), tail(bo, 900)))
+					}
+				}
+			}
+			// restore the per-package files for the next round
+			for _, id := range ids {
+				for n, c := range before[id] {
+					_ = os.WriteFile(filepath.Join(r.mod(), "p"+id, n), []byte(c), 0o644)
+				}
+			}
+		}
+	}
 	var res []*DeclResult
 	for _, sc := range scs {
 		for _, dr := range all[sc.ID] {
-			if dr.Builds && dr.File != "" {
+			if dr.File != "" && (dr.Builds || strings.HasPrefix(dr.BuildErr, "one generator invocation") || strings.HasPrefix(dr.BuildErr, "after one generator invocation")) {
 				for i := range dr.Values {
 					dr.Obs = append(dr.Obs, obs[fmt.Sprintf("%s/%s/%d", dr.Scenario, dr.Decl, i)])
 					dr.Extra = append(dr.Extra, extra[fmt.Sprintf("%s/%s/%d", dr.Scenario, dr.Decl, i)])
+				}
+				if o, ok := obs[fmt.Sprintf("%s/%s/altalloc", dr.Scenario, dr.Decl)]; ok {
+					dr.AltAlloc = o + " " + extra[fmt.Sprintf("%s/%s/altalloc", dr.Scenario, dr.Decl)]
 				}
 				if o, ok := obs[fmt.Sprintf("%s/%s/nilrecv", dr.Scenario, dr.Decl)]; ok {
 					dr.NilRecv = o + "\t" + extra[fmt.Sprintf("%s/%s/nilrecv", dr.Scenario, dr.Decl)]
